@@ -265,11 +265,10 @@ def amendSem (a b : V) : Sem :=
     if anyNeg idxs then .unm else
     (match a with
      | .int _ => .err
-     | .str cs => if cs.isEmpty then .unm else .err
      | .ints xs => if xs.isEmpty then .unm else
          if allLt idxs xs.length then .val (.ints (putMany xs idxs v)) else .err
-     | .mat rows => if !rect rows then .unm else
-         if allLt idxs (rows.length * cols rows) then .val (.mat (putFlat rows idxs v)) else .err
+     -- a string takes the printed value as a substring, a matrix gets a row replaced by the
+     -- value (a mixed list): both outside the modelled value domain
      | _ => .unm)
   | _ => .unm
 
@@ -282,9 +281,7 @@ def amendDSem (a b : V) : Sem :=
      | .str cs => if cs.isEmpty then .unm else .err
      | .ints xs => if xs.isEmpty then .unm else
          if i.natAbs < xs.length then .val (.ints (xs.set i.natAbs v)) else .err
-     | .mat rows => if !rect rows then .unm else
-         if i.natAbs < rows.length then .val (.mat (rows.set i.natAbs (List.replicate (cols rows) v))) else .err
-     | _ => .unm)
+     | _ => .unm)          -- one index into a matrix replaces a row by the value: a mixed list
   | .ints [v, i, j] =>
     if i < 0 || j < 0 then .unm else
     (match a with
